@@ -100,4 +100,90 @@ var fnSpecs = []groupSpec{
 		Skip: []string{"defer pool.ReleaseBuf(h)", "if err != nil { return nil, err }", "if err != nil { pool.ReleaseBuf(b) return nil, err }"},
 		Doc:  "; io.ReadFull is Go.readFull on a chunked stream; its error propagates (the two `if err != nil` blocks)",
 	}},
+	// ---------------------------------------------------------------- C09: the counter updates of one connection
+	{Group: "Conn", fnSpec: fnSpec{
+		File: "pkg/upstream/transport/conn_traditional.go", Func: "ReserveNewQuery", Recv: "TraditionalDnsConn",
+		Lean: "tdcReserveNewQuery", Params: "(closed : Bool) (queueLen reserved maxCq : Int)", Ret: "Bool × Bool × Int",
+		Expr: map[string]lx{
+			"dc.closed.Load()": b("closed"),
+			"len(dc.queue)":    i("queueLen"),
+			"dc.reservedQuery": i("reserved"),
+			"dc.maxCq":         i("maxCq"),
+		},
+		Stmt: map[string]string{
+			"return nil, true":                         "return (false, true, reserved)",
+			"return nil, false":                        "return (false, false, reserved)",
+			"dc.reservedQuery++":                       "let reserved := reserved + 1",
+			"return (*tdcOneTimeExchanger)(dc), false": "return (true, false, reserved)",
+		},
+		Skip: []string{"dc.queueMu.Lock()", "defer dc.queueMu.Unlock()"},
+		Doc:  "; result = (a reservation was handed out, the connection reported itself closed, the new value of reservedQuery); the mutex is the atomic step",
+	}},
+	{Group: "Conn", fnSpec: fnSpec{
+		File: "pkg/upstream/transport/conn_traditional.go", Func: "WithdrawReserved", Recv: "tdcOneTimeExchanger",
+		Lean: "tdcWithdrawReserved", Params: "(reserved : Int)", Ret: "Int",
+		Expr: map[string]lx{"ote.reservedQuery": i("reserved")},
+		Stmt: map[string]string{
+			"ote.reservedQuery--":  "let reserved := reserved - 1",
+			"ote.queueMu.Unlock()": "return reserved",
+		},
+		Skip: []string{"ote.queueMu.Lock()"},
+		Doc:  "; result = the new value of reservedQuery",
+	}},
+	{Group: "Conn", fnSpec: fnSpec{
+		File: "pkg/upstream/transport/conn_lazy_dial.go", Func: "WithdrawReserved", Recv: "lazyDnsConnEarlyReservedExchanger",
+		Lean: "lazyWithdrawReserved", Params: "(wg reserved : Int)", Ret: "Int × Int",
+		Expr: map[string]lx{"ote.reservedQuery": i("reserved")},
+		Stmt: map[string]string{
+			"ote.earlyReserveCallWg.Done()": "let wg := wg - 1",
+			"ote.reservedQuery--":           "let reserved := reserved - 1",
+			"ote.mu.Unlock()":               "return (wg, reserved)",
+		},
+		Skip: []string{"ote.mu.Lock()"},
+		Doc:  "; result = the new values of earlyReserveCallWg and reservedQuery",
+	}},
+	// ---------------------------------------------------------------- C11: the size clamp
+	{Group: "Store", fnSpec: fnSpec{
+		File: "pkg/cache/cache.go", Func: "init", Recv: "Opts",
+		Lean: "cacheOptsInitSize", Params: "(size : Int)", Ret: "Int",
+		Expr: map[string]lx{"opts.Size": i("size")},
+		Stmt: map[string]string{
+			"opts.Size = 1024": "let size := (1024 : Int)",
+			"utils.SetDefaultNum(&opts.CleanerInterval, defaultCleanerInterval)": "return size",
+		},
+		Doc: "; result = Opts.Size after init (the cleaner interval is not modelled)",
+	}},
+	// ---------------------------------------------------------------- C05: how long an answer is kept
+	{Group: "Cache", fnSpec: fnSpec{
+		File: "plugin/executable/cache/utils.go", Func: "saveRespToCache",
+		Lean: "saveRespToCacheTtl", Params: "(truncated : Bool) (rcode : Int) (minTTL : UInt32) (nAnswer : Int) (lazyCacheTtl : Int)", Ret: "Option (Int × Int)",
+		Vars: map[string]ty{"minTTL": tU32, "lazyCacheTtl": tInt},
+		Expr: map[string]lx{
+			"r.Truncated":            b("truncated"),
+			"r.Rcode":                i("rcode"),
+			"dns.RcodeNameError":     i("(3 : Int)"),
+			"dns.RcodeServerFailure": i("(2 : Int)"),
+			"dns.RcodeSuccess":       i("(0 : Int)"),
+			"len(r.Answer)":          i("nAnswer"),
+			"time.Second":            i("(1000000000 : Int)"),
+		},
+		Stmt: map[string]string{
+			"return false": "return none",
+			"return true":  "return some (msgTtl, cacheTtl)",
+		},
+		Skip: []string{"minTTL := dnsutils.GetMinimalTTL(r)", "now := time.Now()", "backend.Store(key(msgKey), v, now.Add(cacheTtl))",
+			"v := &item{ resp: copyNoOpt(r), storedTime: now, expirationTime: now.Add(msgTtl), }"},
+		Doc:  "; the decision part of saveRespToCache: none = not stored, some (message lifetime, cache-entry lifetime) in ns; minTTL = dnsutils.GetMinimalTTL(r)",
+	}},
+	// ---------------------------------------------------------------- C03: the UDP size the reply is truncated to
+	{Group: "Handler", fnSpec: fnSpec{
+		File: "pkg/server_handler/entry_handler.go", Func: "getValidUDPSize",
+		Lean: "getValidUDPSize", Params: "(hasOpt : Bool) (advertised : UInt16)", Ret: "Int",
+		Expr: map[string]lx{
+			"opt != nil":     b("hasOpt"),
+			"opt.UDPSize()":  u16("advertised"),
+			"dns.MinMsgSize": constLx(big.NewInt(512)),
+		},
+		Doc: "; dns.MinMsgSize = 512 (checked by the correspondence); `opt` = the client's OPT record, if any",
+	}},
 }
